@@ -34,13 +34,15 @@ func main() {
 	maxPaths := flag.Int("maxpaths", 200000, "max paths")
 	maxSteps := flag.Int("maxsteps", 2000000, "max steps per path")
 	deadline := flag.Int("deadline", 0, "wall-clock budget in seconds (0 = none)")
-	solverBin := flag.String("solver", "z3", "solver binary")
+	solverBin := flag.String("solver", "z3-new", "primary solver binary (z3-new = z3 5.1.0)")
+	fallbacks := flag.String("fallbacks", "cvc5 --tlimit=30000,z3 -T:30", "comma-separated one-shot solver commands tried when the primary answers unknown")
 	smtlog := flag.String("smtlog", "", "write SMT-LIB2 transcript here")
 	trace := flag.Bool("trace", false, "trace instructions")
 	out := flag.String("out", "", "result JSON path (default stdout)")
 	samples := flag.Int("samples", 0, "record input models of up to N completed paths")
 	excludeF := flag.String("exclude", "", "JSON file: obligation id -> [{name,pred}] known-finding input classes")
 	fixlist := flag.String("fixlist", "", "JSON file with a list of {harness,inputs,tag}: run each concretely")
+	noIfConv := flag.Bool("noifconv", false, "disable if-conversion (state merging of pure diamonds)")
 	dump := flag.Bool("dump", false, "dump SSA of entry")
 	stubs := flag.String("stubs", "", "comma-separated name=kind extra stubs")
 	flag.Parse()
@@ -161,7 +163,10 @@ func main() {
 		if err != nil {
 			fatal(err)
 		}
-		c := symex.Config{Unwind: *unwind, MaxPaths: *maxPaths, MaxSteps: *maxSteps, PanicMode: *panics, Fixed: fixed, Trace: *trace, Stubs: stubMap, SampleModels: *samples, Exclude: exclude}
+		if *fallbacks != "" {
+			sol.Fallbacks = strings.Split(*fallbacks, ",")
+		}
+		c := symex.Config{Unwind: *unwind, MaxPaths: *maxPaths, MaxSteps: *maxSteps, PanicMode: *panics, Fixed: fixed, Trace: *trace, Stubs: stubMap, SampleModels: *samples, Exclude: exclude, NoIfConv: *noIfConv}
 		if *deadline > 0 {
 			c.Deadline = time.Now().Add(time.Duration(*deadline) * time.Second)
 		}
@@ -171,7 +176,7 @@ func main() {
 		sol.Close()
 		results[entry] = map[string]interface{}{
 			"result": res, "wall_s": time.Since(t1).Seconds(), "load_s": loadS,
-			"solver": *solverBin, "unwind": *unwind, "qtimeout_ms": *qtimeout, "panic_mode": *panics,
+			"solver": *solverBin, "fallback_used": sol.FallbackUsed, "unwind": *unwind, "qtimeout_ms": *qtimeout, "panic_mode": *panics,
 		}
 	}
 	enc, _ := json.MarshalIndent(results, "", " ")
